@@ -133,7 +133,7 @@ theorem row_implies_counter_partial (file : Journal) (hfile : JInv file) (ops : 
     split at hrow
     · exact absurd hnew hrow
     · rename_i hf
-      simp only [hf, if_false]
+      simp only [hf]
       simp only [hnew] at hrow ⊢
       obtain ⟨v, hv⟩ := Option.ne_none_iff_exists'.mp hsess
       refine ⟨setCounter dir n v, by simp [hid, hv], ?_⟩
